@@ -112,7 +112,8 @@ PROPS["C14"] = dict(
           "exactly, attribute state required neutral at every line break and at the end; then 0..4 layout operations (Wrap, DumbWrap, "
           "Pad, Indent, Snip) after each of which the visible cells with their attributes are compared again; (TreeEnum) exhaustively, every "
           "nesting of up to three of the eight inline styles and every structural helper around every nesting of depth <= 2, over three "
-          "leaves, followed by each single layout operation; (Docs) documents in the "
+          "leaves, followed by each single layout operation; (Concurrent) 2..4 expressions evaluated 40 times each by parallel "
+          "goroutines, as servitor builds items, each result compared with its evaluation alone; (Docs) documents in the "
           "four markups inside posts and profiles, rendered as Render/String/Preview at widths 1..120; (Frames) every frame emitted "
           "while C07's key histories are played — all required neutral at every line end. Non-trivial: tree depth >= 3 with a newline "
           "under >= 2 styles and at least one layout op / document with links rendered narrower than its longest token / history "
@@ -120,6 +121,7 @@ PROPS["C14"] = dict(
     units=[
         rapid("Tree", "TestTree", 120000, 4000000),
         enum("TreeEnum", "TestTreeEnum"),
+        rapid("Concurrent", "TestConcurrent", 4000, 100000, flaky_ok=True),
         rapid("Docs", "TestDocs", 6000, 200000),
         # what a frame contains is counted, not timed: a malformed or leaking frame is reported even when the schedule that
         # produced it (items built concurrently) does not recur in the confirmation replay
